@@ -161,6 +161,9 @@ func cmdCheck(args []string) int {
 	}
 	// contracts that name functions which do not exist
 	for key, ct := range C.Funcs {
+		if it, _ := P.ifaceOfKey(key); it != nil {
+			continue // contract on an interface method: checked on every implementation
+		}
 		if P.Funcs[key] == nil {
 			for _, k := range funcs {
 				_ = k
